@@ -4,7 +4,7 @@
    trips for every accepted SPS, T.35, totality. *)
 From H264 Require Import Base.Prelude Base.Bits Model.BitReader Model.Sps Model.Context Model.Pps Model.Sei Model.SeiTables
      Spec.SyntaxSps Spec.SyntaxSei
-     Proofs.TablesLib Gen.ImplTables Proofs.Tables Proofs.SeiProofs Proofs.SpsInv Proofs.PpsInv Proofs.SeiRoundtrip.
+     Proofs.TablesLib Gen.ImplTables Proofs.Tables Proofs.SeiProofs Proofs.SpsInv Proofs.PpsInv Proofs.SeiRoundtrip Proofs.SeiConverse.
 Local Open Scope N_scope.
 
 (* buffering_period: for every context of accepted SPS and every payload whose bits are the encoding of a
@@ -26,6 +26,19 @@ Theorem C11_pt_roundtrip : forall sp t fulls payload pad,
   pic_timing_read sp payload = OK t.
 Proof. exact pt_roundtrip. Qed.
 Print Assumptions C11_pt_roundtrip.
+
+(* converses: every accepted payload is the encoding of the structure returned (relative to the SPS named by the
+   coded id / given by the caller), followed by the SEI payload alignment *)
+Theorem C11_bp_converse : forall c payload b, ctx_keyed_sps c -> buffering_period_read c payload = OK b ->
+  exists sp pad, sps_by_id c (seq_parameter_set_id sp) = Some sp /\
+    bits_of_bytes payload = enc_bp sp b ++ pad /\ sei_pad_ok pad.
+Proof. exact bp_converse. Qed.
+Print Assumptions C11_bp_converse.
+
+Theorem C11_pt_converse : forall sp payload t, pic_timing_read sp payload = OK t ->
+  exists fulls pad, bits_of_bytes payload = enc_pt sp t fulls ++ pad /\ sei_pad_ok pad.
+Proof. exact pt_converse. Qed.
+Print Assumptions C11_pt_converse.
 
 (* the signed time offset: two's complement on the declared width *)
 Theorem C11_time_offset_signed : forall tol z, 0 < tol ->
